@@ -245,6 +245,30 @@ func genEdgeListEq(r *rand.Rand, w *ndWriter, sid *int, n int) {
 		emitListEq(w, sid, a, clone(a), "identical")
 		emitListEq(w, sid, a, shuffled(r, a), "permuted")
 		emitListEq(w, sid, a, randList(r, o), "independent")
+		// repeated edges / nodes / roots: the same length on both sides, different multiplicities
+		if len(a.Edges) >= 2 {
+			x, y, z := clone(a), clone(a), clone(a)
+			x.Edges = append(x.Edges, x.Edges[0].Copy())
+			y.Edges = append(y.Edges, y.Edges[1].Copy())
+			emitListEq(w, sid, x, y, "dup-edge-swapped")
+			z.Edges[1] = z.Edges[0].Copy()
+			emitListEq(w, sid, a, z, "dup-edge-replaces")
+			emitListEq(w, sid, z, a, "dup-edge-replaced")
+		}
+		if len(a.Nodes) >= 2 {
+			x, y, z := clone(a), clone(a), clone(a)
+			x.Nodes = append(x.Nodes, x.Nodes[0].Copy())
+			y.Nodes = append(y.Nodes, y.Nodes[1].Copy())
+			emitListEq(w, sid, x, y, "dup-node-swapped")
+			z.Nodes[1] = z.Nodes[0].Copy()
+			emitListEq(w, sid, a, z, "dup-node-replaces")
+		}
+		if len(a.RootElements) >= 2 && a.RootElements[0] != a.RootElements[1] {
+			z := clone(a)
+			z.RootElements[1] = z.RootElements[0]
+			emitListEq(w, sid, a, z, "dup-root-replaces")
+			emitListEq(w, sid, z, a, "dup-root-replaced")
+		}
 		// perturb one location of a clone
 		b := clone(a)
 		var pts []mutPoint
